@@ -20,11 +20,12 @@
       separation hypothesis of DESIGN.md (distinct mesh vertices more than 1e-5 apart) on the real instance;
     - the geometric clauses (same region, same outline, orientation) need Theory/Winding.v.
     These clauses are checked after every step of every generated history by the exact-rational oracle.
-    FALSE for the faithful model and the crate (known findings): a step that returns Err may already have
-    invalidated a slot ([C08_split_edge_half_update_refuted]); [refine] swallows such an Err from [add_point]. *)
+    Was FALSE for the pinned tree (repaired by fix 361bbb9): a step that returned Err could already have
+    invalidated a slot ([C08_split_edge_half_update_refuted], about Model/PinnedMesh.v); [refine] swallowed such an Err
+    from [add_point].  The live steps test every child with Triangle3D::new before the first mutation. *)
 From Coq Require Import ZArith List Floats.
 Set Warnings "-inexact-float".
-From G3 Require Import Model.Num Model.NumF Model.Base Model.Vec Model.Segment Model.Triangle Model.Loop Model.Polygon Model.Triangulation
+From G3 Require Import Model.Num Model.NumF Model.Base Model.Vec Model.Segment Model.Triangle Model.Loop Model.Polygon Model.Triangulation Model.PinnedMesh
   Proofs.Mesh_base Proofs.Mesh_wf Proofs.Mesh_conf Proofs.Mesh_init Proofs.Mesh_witness.
 Import ListNotations.
 
@@ -76,15 +77,19 @@ Proof. exact (fun K NK => @mark_reciprocal K NK). Qed.
     Theorem C08_conf_struct_preserved : forall op M M', Conf_struct M -> separated M ->
       mesh_step op M = (M', Ok _) -> Conf_struct M'. *)
 
-(** a step that fails can leave the mesh half updated: split_edge of the unit-square mesh at a point 1e-7 from
-    the end of the edge returns Err after having invalidated the base triangle *)
+(** BEFORE fix 361bbb9 a step that failed could leave the mesh half updated: the pinned split_edge of the unit-square
+    mesh at a point 1e-7 from the end of the edge returns Err after having invalidated the base triangle; the live
+    split_edge refuses the same request with the mesh untouched *)
 Theorem C08_split_edge_half_update_refuted :
   exists (M M' : Mesh float) (p : V3 float), forallb tp_valid (tris M) = true /\ CNT M /\
-    split_edge 0 Ab p M = (M', Err 10%N) /\ forallb tp_valid (tris M') = false.
+    split_edge_pinned 0 Ab p M = (M', Err 10%N) /\ forallb tp_valid (tris M') = false.
 Proof.
   destruct w4_split_edge_half_update as (M & M' & H1 & H2 & H3 & H4 & _). exists M, M', (p2 1e-7 0)%float.
   split; [exact H2|]. split; [exact (proj2 (from_polygon_invariants _ _ H1))|]. split; assumption.
 Qed.
+Theorem C08_split_edge_w4_now_atomic :
+  exists (M : Mesh float) (p : V3 float), from_polygon w4_poly = Ok M /\ split_edge 0 Ab p M = (M, Err 10%N).
+Proof. destruct w4_split_edge_now_atomic as (M & H1 & H2). exists M, (p2 1e-7 0)%float. split; assumption. Qed.
 
 (** non-vacuity: the unit-square mesh satisfies the invariants *)
 Example C08_nonvacuous : exists M : Mesh float, from_polygon w4_poly = Ok M /\ WF M /\ CNT M /\ length (tris M) = 2.
